@@ -164,11 +164,22 @@ def op_stack(arrs: Sequence[Arr], axis: int) -> object:
         if a.ndim != n:
             return Top('stack of arrays with different rank')
         for x, y in zip(first.axes, a.axes):
-            if x.size != y.size:
+            if bool(x.merged) != bool(y.merged):
+                return Top('stack of a merged axis with a plain one')
+            if x.merged:
+                # two flattenings of the same grid: the same component sizes in the same order
+                if len(x.merged) != len(y.merged) or any(p.size != q.size for p, q in zip(x.merged, y.merged)):
+                    return Top(f"stack of arrays flattened over different grids {first.show()} vs {a.show()}")
+            elif x.size != y.size:
                 return Top(f"stack of arrays with different shapes {first.show()} vs {a.show()}")
     bodies = []
     for a in arrs:
-        mapping = {y.key: symbol(x.key) for x, y in zip(first.axes, a.axes)}
+        mapping = {}
+        for x, y in zip(first.axes, a.axes):
+            mapping[y.key] = symbol(x.key)
+            if x.merged:
+                for p, q in zip(x.merged, y.merged):
+                    mapping[q.key] = symbol(p.key)
         bodies.append(_subst(a.body, mapping))
     c = Axis(fresh('c'), const(len(arrs)))
     pos = _norm_axis(axis, n + 1)
@@ -214,6 +225,18 @@ def op_index(arr: Arr, items: Sequence) -> object:
             return Top('unsupported index')
     axes.extend(arr.axes[pos:])
     return Arr(axes, _subst(arr.body, mapping))
+
+
+def op_take(arr: Arr, picks: Sequence[int], axis: int) -> object:
+    """numpy.take(arr, [i0, i1, ...], axis=k) / arr[..., [i0, i1, ...], ...]: axis k is replaced by one entry per pick"""
+    if not isinstance(arr, Arr):
+        return arr
+    k = _norm_axis(axis, arr.ndim)
+    parts = []
+    for i in picks:
+        items = [('all',)] * k + [('int', int(i))]
+        parts.append(op_index(arr, items))
+    return op_stack(parts, k)
 
 
 def op_expand_dims(arr: Arr, axis: int) -> object:
@@ -617,8 +640,14 @@ class ArrayInterp:
                 if (p.lower is not None and lo is None) or (p.upper is not None and hi is None):
                     return Top('non constant slice bound')
                 items.append(('all',) if lo is None and hi is None else ('slice', lo, hi))
-            elif isinstance(p, ast.Constant) and p.value is None:
+            elif (isinstance(p, ast.Constant) and p.value is None) or norm_text(p) in ('numpy.newaxis', 'np.newaxis'):
                 items.append(('new',))
+            elif isinstance(p, (ast.List, ast.Tuple)) and p.elts and all(self._as_int(x) is not None for x in p.elts):
+                # one list of constant positions among full slices: a take along that axis
+                others = [q_ for q_ in parts if q_ is not p]
+                if all(isinstance(q_, ast.Slice) and q_.lower is None and q_.upper is None and q_.step is None for q_ in others):
+                    return op_take(base, [self._as_int(x) for x in p.elts], parts.index(p))
+                return Top('list index mixed with other indices')
             elif isinstance(p, ast.Constant) and p.value is Ellipsis:
                 return Top('ellipsis index')
             else:
@@ -723,6 +752,29 @@ class ArrayInterp:
             if all(isinstance(a, Arr) and a.ndim == 1 for a in arrs):
                 return op_stack(arrs, 1)
             return Top('column_stack of non 1-D arrays')
+        if is_np and short == 'take' and len(e.args) >= 2:
+            picks = e.args[1]
+            ax = kw.get('axis') or (e.args[2] if len(e.args) > 2 else None)
+            k = self._as_int(ax) if ax is not None else None
+            if isinstance(picks, ast.Name):
+                d_ = self.source_of.flow.single_def(picks) if hasattr(self.source_of, 'flow') else None
+                if d_ is not None and d_.kind == 'assign' and isinstance(d_.value, (ast.List, ast.Tuple)):
+                    picks = d_.value
+            if k is None or not isinstance(picks, (ast.List, ast.Tuple)) or any(self._as_int(x) is None for x in picks.elts):
+                return Top('take with non constant positions or axis')
+            a = self.eval(e.args[0])
+            a = a.data if isinstance(a, DataArrayVal) else a
+            return op_take(a, [self._as_int(x) for x in picks.elts], k)
+        if is_np and short in ('tile', 'repeat') and len(e.args) == 2 and not kw:
+            a = self.eval(e.args[0])
+            a = a.data if isinstance(a, DataArrayVal) else a
+            reps = self._shape_arg(ast.Tuple(elts=[e.args[1]], ctx=ast.Load()))
+            if not isinstance(a, Arr) or a.ndim != 1 or reps is None or not isinstance(reps[0], Lin):
+                return Top(f"{short} of a non 1-D array or by a non static count")
+            n, r = a.axes[0].size, reps[0]
+            if short == 'tile':      # the whole array r times over: (r, n) flattened
+                return op_reshape(op_broadcast_to(op_expand_dims(a, 0), [r, n]), [-1], 'C')
+            return op_reshape(op_broadcast_to(op_expand_dims(a, 1), [n, r]), [-1], 'C')     # every element r times: (n, r) flattened
         if is_np and short == 'expand_dims':
             k = self._as_int(kw.get('axis') or e.args[1])
             return op_expand_dims(self.eval(e.args[0]), k) if k is not None else Top('expand_dims axis')
